@@ -5,6 +5,9 @@ os.chdir(os.path.dirname(os.path.abspath(__file__))+'/..')
 for v in ('DLVERIF_DARKLUA_BIN','DLVERIF_DARKLUA_CLI'):
     os.environ.setdefault(v, os.getcwd()+'/harness/target/repo-cli/release/darklua')
 os.environ.setdefault('DLVERIF_SCRATCH','/dev/shm')
+# the harness binary links /repo's working tree: rebuild it first (it may be left over from a run against a seeded change)
+subprocess.run(['./check','--build'],check=False)
+subprocess.run(['./check','--setup'],stdout=subprocess.DEVNULL,check=False)
 k=json.load(open('known_findings.json'))
 bad=0
 for e in k:
